@@ -546,3 +546,6 @@ for n_ in ("diriter_run_cut_by_deleted", "diriter_run_cut_by_label"):
 
 add(twin("dir::verif::ops::twin_find_free_always_appends", ["C01", "C03", "C05"],
          "claims new entries are always appended at the end marker (holes never reused)", "pos == e as u64 * 32", build="bare", timeout=1500))
+
+add(twin("dir::verif::twin_validate_accepts_every_ascii", ["C15"],
+         "claims every one-character ASCII name is accepted", "validate_long_name::<()>(name).is_ok()"))
